@@ -110,6 +110,8 @@ def cases(ctx):
         if rng.random() < 0.5:
             allt = list(G.NOTE_CHARS)
             sub = "".join(sorted(rng.sample(allt, rng.randint(1, 8))))
+            if rng.random() < 0.1:
+                sub = rng.choice(["", "24", "3"])
         yield {"kind": "random", "notes": notes, "include": sub, "minimum": rng.randint(1, 4)}
 
 
@@ -251,9 +253,9 @@ def run_stream(ctx, notes, include, minimum, case):
 
     model = to_model(notes)
     real = to_real(notes)
-    inc_model = frozenset(include) if include else frozenset(G.NOTE_CHARS)
+    inc_model = frozenset(include) if include is not None else frozenset(G.NOTE_CHARS)
     inc_real = frozenset(NoteType(t) for t in inc_model)
-    if include:
+    if include is not None:
         ctx.feat("type_subset")
     observe_features(ctx, [n for n in model if n[2] in inc_model])
     SB = {R.SEPARATE: SameBeatNotes.KEEP_SEPARATE, R.BY_TYPE: SameBeatNotes.JOIN_BY_NOTE_TYPE, R.ALL: SameBeatNotes.JOIN_ALL}
@@ -319,7 +321,7 @@ def run_stream(ctx, notes, include, minimum, case):
             ctx.mon("count_steps")
             kw = dict(same_beat_notes=SB[sb], same_beat_minimum=m)
             inc = R.DEFAULT_TYPES
-            if include:
+            if include is not None:
                 kw["include_note_types"] = inc_real
                 inc = inc_model
             want = R.count_steps(model, inc, sb, m)
@@ -327,8 +329,8 @@ def run_stream(ctx, notes, include, minimum, case):
             ctx.expect(got == want, f"count_steps:sb{sb}", minimum=m, want=want, got=got, include=include)
     for sb in (R.ALL, R.SEPARATE, R.BY_TYPE):
         ctx.mon("count_steps")
-        inc = inc_model if include else R.DEFAULT_TYPES
-        kwi = {"include_note_types": inc_real} if include else {}
+        inc = inc_model if include is not None else R.DEFAULT_TYPES
+        kwi = {"include_note_types": inc_real} if include is not None else {}
         want = R.count_steps(model, inc, sb, 2)
         got = C.count_jumps(iter(real), same_beat_notes=SB[sb], **kwi)
         ctx.expect(got == want, f"count_jumps:sb{sb}", want=want, got=got, include=include)
